@@ -1,3 +1,4 @@
+import TemplVerif.Generated.Skeletons
 import TemplVerif.Model.Gen
 import TemplVerif.Model.Denote
 import TemplVerif.Proofs.Gen
@@ -92,5 +93,115 @@ theorem C02_pinned :
     Generated.cssAttrName = [99, 108, 97, 115, 115] ∧
     Generated.scriptAttrPrefixes = [[111, 110], [104, 120, 45, 111, 110, 58]] := by
   decide
+
+-- BEGIN transcription pins (written by tools/mkpins.py)
+/-- T1, transcription pins: the control structure and calls (extract/skeleton.go) of the functions whose models
+    were written by hand are the ones the models were transcribed from:
+      generator/generator.go generator.writeAttributeCSS
+      generator/generator.go generator.writeAttributesCSS
+      generator/generator.go generator.writeBlankAssignmentForRuntimeImport
+      generator/generator.go generator.writeBlockTemplElementExpression
+      generator/generator.go generator.writeBoolConstantAttribute
+      generator/generator.go generator.writeBoolExpressionAttribute
+      generator/generator.go generator.writeCSS
+      generator/generator.go generator.writeCallTemplateExpression
+      generator/generator.go generator.writeChildrenExpression
+      generator/generator.go generator.writeCodeGeneratedComment
+      generator/generator.go generator.writeComment
+      generator/generator.go generator.writeConditionalAttribute
+      generator/generator.go generator.writeConstantAttribute
+      generator/generator.go generator.writeDocType
+      generator/generator.go generator.writeElement
+      generator/generator.go generator.writeElementAttributes
+      generator/generator.go generator.writeElementCSS
+      generator/generator.go generator.writeElementScript
+      generator/generator.go generator.writeErrorHandler
+      generator/generator.go generator.writeExpressionAttribute
+      generator/generator.go generator.writeExpressionAttributeValueDefault
+      generator/generator.go generator.writeExpressionAttributeValueScript
+      generator/generator.go generator.writeExpressionAttributeValueStyle
+      generator/generator.go generator.writeExpressionAttributeValueURL
+      generator/generator.go generator.writeExpressionErrorHandler
+      generator/generator.go generator.writeForExpression
+      generator/generator.go generator.writeGeneratedDateComment
+      generator/generator.go generator.writeGoCode
+      generator/generator.go generator.writeGoExpression
+      generator/generator.go generator.writeHeader
+      generator/generator.go generator.writeIfExpression
+      generator/generator.go generator.writeImports
+      generator/generator.go generator.writeNode
+      generator/generator.go generator.writeNodes
+      generator/generator.go generator.writePackage
+      generator/generator.go generator.writeRawElement
+      generator/generator.go generator.writeScript
+      generator/generator.go generator.writeScriptContents
+      generator/generator.go generator.writeScriptElement
+      generator/generator.go generator.writeSelfClosingTemplElementExpression
+      generator/generator.go generator.writeSpreadAttributes
+      generator/generator.go generator.writeStringExpression
+      generator/generator.go generator.writeSwitchExpression
+      generator/generator.go generator.writeTemplBuffer
+      generator/generator.go generator.writeTemplElementExpression
+      generator/generator.go generator.writeTemplate
+      generator/generator.go generator.writeTemplateNodes
+      generator/generator.go generator.writeText
+      generator/generator.go generator.writeVersionComment
+      generator/generator.go generator.writeWhitespace
+      generator/generator.go generator.writeWhitespaceTrailer
+    A change of what one of them calls or how it branches breaks this theorem; the check then searches for a
+    failing input and reports either that or `no-failing-input-found`. -/
+theorem C02_transcription_pinned :
+    Generated.skel_gen_writeAttributeCSS = 10858082510981339322 ∧
+    Generated.skel_gen_writeAttributesCSS = 17128375998541749753 ∧
+    Generated.skel_gen_writeBlankAssignmentForRuntimeImport = 8364394957163665611 ∧
+    Generated.skel_gen_writeBlockTemplElementExpression = 11326746197513157036 ∧
+    Generated.skel_gen_writeBoolConstantAttribute = 17279520674632884351 ∧
+    Generated.skel_gen_writeBoolExpressionAttribute = 365912194915787068 ∧
+    Generated.skel_gen_writeCSS = 5516758861864974531 ∧
+    Generated.skel_gen_writeCallTemplateExpression = 9594183451043399340 ∧
+    Generated.skel_gen_writeChildrenExpression = 351564412331989652 ∧
+    Generated.skel_gen_writeCodeGeneratedComment = 8357919265093665860 ∧
+    Generated.skel_gen_writeComment = 7133478974922829661 ∧
+    Generated.skel_gen_writeConditionalAttribute = 6633228310471802764 ∧
+    Generated.skel_gen_writeConstantAttribute = 8569620026748607292 ∧
+    Generated.skel_gen_writeDocType = 10529868399773554376 ∧
+    Generated.skel_gen_writeElement = 9537736456058383951 ∧
+    Generated.skel_gen_writeElementAttributes = 15876934111739183099 ∧
+    Generated.skel_gen_writeElementCSS = 10254342041197554424 ∧
+    Generated.skel_gen_writeElementScript = 763426321262258063 ∧
+    Generated.skel_gen_writeErrorHandler = 3220571718826977137 ∧
+    Generated.skel_gen_writeExpressionAttribute = 3511430070960549522 ∧
+    Generated.skel_gen_writeExpressionAttributeValueDefault = 10919355300089812823 ∧
+    Generated.skel_gen_writeExpressionAttributeValueScript = 9066903911087314849 ∧
+    Generated.skel_gen_writeExpressionAttributeValueStyle = 2600459999555158370 ∧
+    Generated.skel_gen_writeExpressionAttributeValueURL = 9066903911087314849 ∧
+    Generated.skel_gen_writeExpressionErrorHandler = 3990333745618447584 ∧
+    Generated.skel_gen_writeForExpression = 967216417881405918 ∧
+    Generated.skel_gen_writeGeneratedDateComment = 4402119418485325256 ∧
+    Generated.skel_gen_writeGoCode = 9082316895623791248 ∧
+    Generated.skel_gen_writeGoExpression = 10832970467191123079 ∧
+    Generated.skel_gen_writeHeader = 17757859098078167144 ∧
+    Generated.skel_gen_writeIfExpression = 8886623500353960725 ∧
+    Generated.skel_gen_writeImports = 16261108241018286897 ∧
+    Generated.skel_gen_writeNode = 8909952721136510863 ∧
+    Generated.skel_gen_writeNodes = 15929390937765484789 ∧
+    Generated.skel_gen_writePackage = 9032675636176359823 ∧
+    Generated.skel_gen_writeRawElement = 1821929257101758292 ∧
+    Generated.skel_gen_writeScript = 955588685841281957 ∧
+    Generated.skel_gen_writeScriptContents = 3921325542740619965 ∧
+    Generated.skel_gen_writeScriptElement = 15709453175462206363 ∧
+    Generated.skel_gen_writeSelfClosingTemplElementExpression = 9594183451043399340 ∧
+    Generated.skel_gen_writeSpreadAttributes = 9594183451043399340 ∧
+    Generated.skel_gen_writeStringExpression = 18179626585064402480 ∧
+    Generated.skel_gen_writeSwitchExpression = 7652783365260669400 ∧
+    Generated.skel_gen_writeTemplBuffer = 12067656867349261645 ∧
+    Generated.skel_gen_writeTemplElementExpression = 561756907016755889 ∧
+    Generated.skel_gen_writeTemplate = 18191793614618438843 ∧
+    Generated.skel_gen_writeTemplateNodes = 6975213564886194975 ∧
+    Generated.skel_gen_writeText = 7900193906795065909 ∧
+    Generated.skel_gen_writeVersionComment = 4402119418485325256 ∧
+    Generated.skel_gen_writeWhitespace = 9093825524154211736 ∧
+    Generated.skel_gen_writeWhitespaceTrailer = 16278270400185365577 := by decide
+-- END transcription pins
 
 end TemplVerif.Props.C02
